@@ -756,9 +756,14 @@ pub fn check_main<P: Prop>(tier: Tier, seed: u64, workers: usize, extra: Option<
             }
         }
         // verify the replay reproduces (twice for process-level outcomes)
-        let tries = if process_level { 2 } else { 1 };
+        let stall_kind = is_stall(&f.violation.invariant);
+        let tries = if stall_kind { 3 } else if process_level { 2 } else { 1 };
         let mut ok = true;
+        let mut stall_seen = false;
         for _ in 0..tries {
+            if stall_kind && stall_seen {
+                break;
+            }
             match run_one_child(P::ID, f.profile, &use_path, P::STALL_SECS.max(30)) {
                 Ok(vs) => {
                     let same = vs.iter().any(|v| {
@@ -766,7 +771,10 @@ pub fn check_main<P: Prop>(tier: Tier, seed: u64, workers: usize, extra: Option<
                             || (process_level && v.invariant == f.violation.invariant)
                             || (is_stall(&f.violation.invariant) && is_stall(&v.invariant))
                     });
-                    if !same {
+                    if same && stall_kind {
+                        stall_seen = true;
+                    }
+                    if !same && !stall_kind {
                         ok = false;
                     }
                 }
@@ -775,6 +783,11 @@ pub fn check_main<P: Prop>(tier: Tier, seed: u64, workers: usize, extra: Option<
                     ok = false;
                 }
             }
+        }
+        // a stall is a physical observation (CPU time over a threshold): the case replays
+        // exactly, the threshold crossing is given three chances
+        if stall_kind && !stall_seen {
+            ok = false;
         }
         if ok {
             println!("VIOLATION property={} replay={}", P::ID, use_path.display());
